@@ -377,6 +377,62 @@ func (x *runner) routeRequests(full string, registered map[string]bool, thorough
 	}
 }
 
+// paramsOf lists the {parameters} of a pattern, in order.
+func paramsOf(full string) []string {
+	var ps []string
+	for _, p := range strings.Split(full, "/") {
+		if len(p) >= 2 && p[0] == '{' && p[len(p)-1] == '}' {
+			ps = append(ps, p[1:len(p)-1])
+		}
+	}
+	return ps
+}
+
+// literalsAsParameters: every literal segment of a registered route ("_info", "_healthcheck", "metadata", ...) used as the
+// value of one parameter at a time, the others ordinary. A gate or a middleware that decides on the look of the path
+// (suffix, prefix, a segment's name) is fooled by a caller-chosen segment. Always complete for {key} and {address} on the
+// patterns that have a POST or DELETE registration; the rest is sampled from the seed in the quick tier.
+func (x *runner) literalsAsParameters(g *vx.Rng, fulls []string, registered map[string]map[string]bool, literals []string, thorough bool) {
+	base := paramSets[0]
+	for _, full := range fulls {
+		reg := registered[full]
+		mutating := reg["POST"] || reg["DELETE"] || reg["PUT"] || reg["PATCH"]
+		for _, p := range paramsOf(full) {
+			for _, lit := range literals {
+				set := map[string]string{}
+				for k, v := range base {
+					set[k] = v
+				}
+				set[p] = lit
+				target := instantiate(full, set)
+				must := mutating && (p == "key" || p == "address")
+				var ms []string
+				switch {
+				case must || thorough:
+					ms = methods
+				case g.Chance(1, 3):
+					for _, m := range methods {
+						if reg[m] {
+							ms = append(ms, m)
+						}
+					}
+					ms = append(ms, pickS(g, methods), pickS(g, []string{"POST", "DELETE", "GET"}))
+				}
+				seen := map[string]bool{}
+				for _, m := range ms {
+					if seen[m] {
+						continue
+					}
+					seen[m] = true
+					// the value stays inside its own segment and is a valid key / address: still a well-formed call
+					wf := reg[m] && (p == "key" || p == "address")
+					x.both(reqIn{Method: m, Target: target, Body: rightBody(full), WF: wf, Variant: "literal-as-" + p})
+				}
+			}
+		}
+	}
+}
+
 func pickS(g *vx.Rng, l []string) string { return l[g.Intn(len(l))] }
 
 func (x *runner) randomRequest(g *vx.Rng, fulls []string, vocab []string) reqIn {
@@ -449,7 +505,7 @@ func main() {
 	r.Cases("From FL Require Import Router.Model Router.RoutesGen.\nDefinition check_case := check_case_with gen_config.\n", "case", 400)
 	r.Sum.Rule = "every (method, pattern) chi.Walk reports for the real api.NewRouter, united with the translator's table, instantiated with " +
 		"4 parameter sets x 15 methods (9 of chi, unknown, lower/mixed case) x variants (method-override headers and query, trailing slash, " +
-		"bulk / garbage / script bodies, CORS Origin / Access-Control-Request-Method headers on every method), then seeded random paths/methods/bodies/headers; each request is served by the " +
+		"bulk / garbage / script bodies, every literal route segment as the value of one parameter, CORS Origin / Access-Control-Request-Method headers on every method), then seeded random paths/methods/bodies/headers; each request is served by the " +
 		"router built with readOnly=false and by the one built with readOnly=true; non-trivial = without the flag the backend records a " +
 		"write for this request; distinct by the JSON of (flag, request)"
 	r.Sum.Samples = []any{} // never null in summary.json, also when the router cannot even be built
@@ -518,6 +574,18 @@ func main() {
 	for _, full := range fulls {
 		x.routeRequests(full, registered[full], r.Thorough())
 	}
+	// the literal segments of the routes chi.Walk reports, as parameter values
+	litSet := map[string]bool{}
+	for k := range x.rw.routes {
+		for _, sg := range strings.Split(k[strings.Index(k, " ")+1:], "/") {
+			if sg != "" && !strings.HasPrefix(sg, "{") {
+				litSet[sg] = true
+			}
+		}
+	}
+	literals := vx.SortedKeys(litSet)
+	x.literalsAsParameters(vx.NewRng(r.Seed).Fork().Fork(), fulls, registered, literals, r.Thorough())
+
 	// a few requests outside every pattern
 	for _, t := range []string{"/", "/api", "/api/ledger", "/api/ledger/", "/api/ledger/v2", "/api/ledger/v2/", "/api/ledger//stats", "/api/ledger/v2//stats",
 		"/api/ledger/v2/l0//transactions", "/api/ledger/l0/transactions/7/revert/extra", "/api/ledger/v2/transactions/batch", "/API/LEDGER/l0/transactions",
